@@ -298,6 +298,34 @@ class Run:
             except LookupError:
                 pass
 
+    def scope_kwargs(self, t, b) -> dict:
+        """`logger=` for the scopes listed under `badlog`: a logger whose `log` raises when the scope's "...finished" line is
+        written (a handler / filter that fails, a closed stream): leaving the block fails *after* the metrics scope was reset –
+        the rest of the context must be restored all the same"""
+        if b not in getattr(self, "badlog", ()):
+            return {}
+        run = self
+
+        class Bad(logging.Logger):
+            def log(self_, level, msg, *args, **kwargs):  # noqa: N805
+                if "finished" in str(msg):
+                    # nested scopes inherit the logger: the line says which scope is being finished (`[trace] [b<id>] [ident]`)
+                    import re
+                    m_ = re.search(r"\[b(\d+)\]", str(msg))
+                    which = int(m_.group(1)) if m_ else b
+                    run.ev(run.current_tid(t), "logfail", which)
+                    raise Boom(f"log{which}")
+
+        return {"logger": Bad(f"bad{b}")}
+
+    def current_tid(self, default):
+        """the harness number of the task that is running right now (a logger is shared by the tasks below its scope)"""
+        cur = asyncio.current_task(self.loop) if self.loop.is_running() else None
+        for c, tk in self.tasks.items():
+            if tk is cur:
+                return c
+        return default
+
     def make_disp(self, t, spec):
         run = self
         did, en, ex, ys = spec
@@ -458,7 +486,8 @@ class Run:
                 if blk is not None and blk[1] in ("async", "sync"):
                     _, kind, b, sup, disps, _body = blk
                     insts = [F[i](v=tag) for i, tag in sup]
-                    self.held[b] = ctx.scope(f"b{b}", *insts, disposables=[self.make_disp(t, d) for d in disps] if disps else None)
+                    self.held[b] = ctx.scope(f"b{b}", *insts, disposables=[self.make_disp(t, d) for d in disps] if disps else None,
+                                             **self.scope_kwargs(t, b))
             elif k == "block":
                 _, kind, b, sup, disps, body = st
                 insts = [F[i](v=tag) for i, tag in sup]
@@ -468,7 +497,8 @@ class Run:
                     if kind == "async":
                         cm = self.held.pop(b, None)
                         if cm is None:
-                            cm = ctx.scope(f"b{b}", *insts, disposables=[self.make_disp(t, d) for d in disps] if disps else None)
+                            cm = ctx.scope(f"b{b}", *insts, disposables=[self.make_disp(t, d) for d in disps] if disps else None,
+                                           **self.scope_kwargs(t, b))
                         self.used[(t, b)] = cm
                         async with cm:
                             self.note_group(b)
@@ -483,7 +513,7 @@ class Run:
                     elif kind == "sync":
                         cm = self.held.pop(b, None)
                         if cm is None:
-                            cm = ctx.scope(f"b{b}", *insts)
+                            cm = ctx.scope(f"b{b}", *insts, **self.scope_kwargs(t, b))
                         self.used[(t, b)] = cm
                         with cm:
                             self.ev(t, "enter", b)
@@ -507,7 +537,8 @@ class Run:
                                 raise
                             self.ev(t, "bodyend", b, "ok", self.pending_cancel())
                 except BaseException as e:
-                    self.ev(t, "left", b, out_name(e), 1 if e is body_exc else 0, self.alive(), reach_tags(e))
+                    self.ev(t, "left", b, out_name(e), 1 if e is body_exc else 0, self.alive(), reach_tags(e),
+                            e.args[0] if isinstance(e, (Boom, BaseBoom)) and e.args and isinstance(e.args[0], str) else "-")
                     self.ev(t, "post", b, self.fingerprint())
                     raise
                 self.ev(t, "left", b, "ok", 1, self.alive())
@@ -522,7 +553,8 @@ class Run:
             raise
         self.ev(t, "end", "ok")
 
-    def run(self, prog, sched):
+    def run(self, prog, sched, badlog=()):
+        self.badlog = set(badlog)
         loop = self.loop
         errors = []
         loop.set_exception_handler(lambda _l, c: errors.append(str(c.get("message"))))
@@ -568,7 +600,7 @@ def run_real(case: str) -> str:
     spec = json.loads(case)
     r = Run()
     try:
-        r.run(spec["prog"], spec.get("sched", []))
+        r.run(spec["prog"], spec.get("sched", []), spec.get("badlog", ()))
         return " ".join(r.log)
     finally:
         r.close()
@@ -602,7 +634,10 @@ def shrink(case: str):
     prog, sched = spec["prog"], spec.get("sched", [])
 
     def dump(p, s):
-        return json.dumps({"prog": p, "sched": s}, separators=(",", ":"))
+        d = {"prog": p, "sched": s}
+        if spec.get("badlog"):
+            d["badlog"] = spec["badlog"]
+        return json.dumps(d, separators=(",", ":"))
 
     for i in range(len(sched)):
         yield dump(prog, sched[:i] + sched[i + 1:])
